@@ -789,8 +789,10 @@ func (w *World) runClientLane(i int, lane []Req) {
 		w.mu.Unlock()
 		w.wg.Add(1)
 		rq := rq
+		done := make(chan struct{})
 		go func() {
 			defer w.wg.Done()
+			defer close(done)
 			defer func() {
 				w.mu.Lock()
 				w.reqsOpen--
@@ -803,6 +805,13 @@ func (w *World) runClientLane(i int, lane []Req) {
 				w.doRequest(rq)
 			}
 		}()
+		if rq.Sync {
+			select {
+			case <-done:
+			case <-w.stop:
+				return
+			}
+		}
 	}
 }
 
@@ -815,7 +824,7 @@ var customRe = regexp.MustCompile(`(?s)CUSTOM(\d+)\[(.*?)\]MOTSUC`)
 
 func (w *World) sendKV(rq Req) KV {
 	return KV{"r": rq.ID, "svc": rq.Svc, "host": rq.Host, "path": rq.Path, "kind": rq.Kind, "hold": rq.HoldMs,
-		"hc": rq.HC, "cookie": rq.Cookie, "tls": rq.TLS, "abort": rq.AbortMs, "method": dfltS(rq.Method, "GET")}
+		"hc": rq.HC, "cookie": rq.Cookie, "tls": rq.TLS, "abort": rq.AbortMs, "method": dfltS(rq.Method, "GET"), "sync": rq.Sync}
 }
 
 func dfltS(s, d string) string {
